@@ -77,7 +77,12 @@ func (s *sys) Close()      {}
 func (s *sys) Key() string { return s.lastKey }
 
 func (s *sys) OpString(i int) string {
-	return s.specs[s.ops[i].actor].name + "." + s.ops[i].c.String()
+	sp := s.specs[s.ops[i].actor]
+	if s.ops[i].c.Op == "Sub" {
+		return sp.name + "=" + sp.recv + "." + s.ops[i].c.String()
+	}
+
+	return sp.name + "." + s.ops[i].c.String()
 }
 
 func newParent() (*memfs.MemFS, map[string]avfs.UserReader, error) {
@@ -302,7 +307,7 @@ func (s *sys) key(extra string) string {
 
 	for _, a := range s.actors {
 		u, m, c := actual(a)
-		fmt.Fprintf(&b, "\n%s user=%s umask=%o cwd=%s chdir=%v loc=%s/%v", a.name, u, m, c, a.chdirDone, a.loc, a.located)
+		fmt.Fprintf(&b, "\n%s dir=%s user=%s umask=%o cwd=%s chdir=%v loc=%s/%v", a.name, a.dir, u, m, c, a.chdirDone, a.loc, a.located)
 	}
 
 	b.WriteString(extra)
@@ -615,6 +620,10 @@ func creates(c fsx.Call) bool {
 // Step applies one operation on the real side and, in lock-step, on the twin.
 func (s *sys) Step(i int) bfs.StepResult {
 	o := s.ops[i]
+	if o.c.Op == "Sub" {
+		return s.stepSub(i)
+	}
+
 	x := s.actors[o.actor]
 	c := o.c
 	before := s.lastDump
@@ -677,7 +686,7 @@ func (s *sys) Step(i int) bfs.StepResult {
 
 		sig := map[string]string{
 			"actor": x.kind, "call": c.Op, "path": pclass, "phase": phase, "kind": kind,
-			"want": clip(want), "got": clip(got), "user": userClass, "viewroot": s.rootSearchable(x, before),
+			"want": clip(want), "got": clip(got), "user": userClass, "viewroot": s.viewrootClass(x, c, before),
 		}
 
 		for i := 0; i+1 < len(extra); i += 2 {
@@ -1021,17 +1030,62 @@ func (s *sys) visibility(x *actor, c, tc fsx.Call, report func(kind, want, got, 
 // them while walking the prefixed path): searchable | root-unsearchable |
 // ancestor-unsearchable | n/a (parent actor, unreachable root).
 func (s *sys) rootSearchable(a *actor, dump []string) string {
-	if !a.isView() || !a.located {
+	rootBad, ancBad, ok := s.unsearchable(a, dump)
+
+	switch {
+	case !ok:
 		return "n/a"
+	case rootBad:
+		return "root-unsearchable"
+	case ancBad:
+		return "ancestor-unsearchable"
+	}
+
+	return "searchable"
+}
+
+// viewrootClass is rootSearchable for the signature of a call. The walk of the
+// prefixed path searches the directories ABOVE its last element only: when
+// every operand of the call resolves to the view's root itself ('/', '/.',
+// '/q/..', '..'), the parent never asks for search permission on that
+// directory in order to reach it - what it demands there is the permission the
+// call needs on its TARGET (x for Chdir, r for ReadDir ...), and a view that
+// answers differently does so for another reason than "a view never checks
+// search permission on the directory it starts from". Such calls get the
+// class root-unsearchable-operand instead of root-unsearchable.
+func (s *sys) viewrootClass(a *actor, c fsx.Call, dump []string) string {
+	rootBad, ancBad, ok := s.unsearchable(a, dump)
+
+	rootIsOperand := !noPathOps[c.Op] && viewAbs(a.cwd, c.A) == "/" && (!isPairOp[c.Op] || viewAbs(a.cwd, c.B) == "/")
+
+	switch {
+	case !ok:
+		return "n/a"
+	case rootBad && !rootIsOperand:
+		return "root-unsearchable"
+	case ancBad:
+		return "ancestor-unsearchable"
+	case rootBad:
+		return "root-unsearchable-operand"
+	}
+
+	return "searchable"
+}
+
+// unsearchable: does the acting user lack search permission on the view's root
+// directory (rootBad), on a directory above it (ancBad)? ok is false for the
+// parent actor and for a view whose root the parent cannot reach.
+func (s *sys) unsearchable(a *actor, dump []string) (rootBad, ancBad, ok bool) {
+	if !a.isView() || !a.located {
+		return false, false, false
 	}
 
 	u := s.users[a.user]
 	if u == nil || u.IsAdmin() {
-		return "searchable"
+		return false, false, true
 	}
 
 	base := a.base()
-	res := "searchable"
 
 	for _, l := range dump {
 		f := strings.Fields(l)
@@ -1063,14 +1117,14 @@ func (s *sys) rootSearchable(a *actor, dump []string) string {
 
 		if mode&1 == 0 {
 			if p == base {
-				return "root-unsearchable"
+				rootBad = true
+			} else {
+				ancBad = true
 			}
-
-			res = "ancestor-unsearchable"
 		}
 	}
 
-	return res
+	return rootBad, ancBad, true
 }
 
 // apiDump walks the whole tree of a parent through the public API as the
@@ -1089,4 +1143,285 @@ func (s *sys) apiDump(v *memfs.MemFS, users map[string]avfs.UserReader) []string
 	_ = v.SetUser(cur)
 
 	return out
+}
+
+func (s *sys) actorByName(n string) *actor {
+	for _, a := range s.actors {
+		if a.name == n {
+			return a
+		}
+	}
+
+	return nil
+}
+
+// execSub calls v.Sub(p); panics and decided deadlocks become outcomes.
+func execSub(v *memfs.MemFS, p string) (res result, nv *memfs.MemFS) {
+	k, msg := fsx.Guard(func() {
+		sub, err := v.Sub(p)
+		res = errResult(err)
+
+		if err == nil {
+			nv, _ = sub.(*memfs.MemFS)
+			if nv == nil {
+				res = result{Kind: "NOT-A-MEMFS", Msg: fmt.Sprintf("Sub returned a %T", sub)}
+			}
+		}
+	})
+	if k != "" {
+		return result{Kind: k, Msg: msg}, nil
+	}
+
+	return res, nv
+}
+
+// stepSub is the operation "x = R.Sub(spelling)": the view of actor x is
+// created anew by its receiver R, in the state R has now.
+//
+// Judged: same outcome as the twin parent's Sub on the prefixed path; the new
+// view is rooted at the directory R resolves the spelling to (from R's working
+// directory when it is relative); it starts with R's user, umask and working
+// directory; the tree is untouched; and (independence) no per-view setter
+// applied to the new view shows in any other actor, nor one applied to R in
+// the new view. The independence probe runs at creation because a view that
+// shares its state with its receiver is in every other respect - tree, user,
+// umask, working directory - indistinguishable from a correct one, i.e. the
+// sharing is not part of the state key.
+//
+// Not judged (the operation is a no-op then): R is a view whose root was
+// renamed or removed (the property is silent), or the spelling is relative and
+// R is a view whose working directory was not yet set through it.
+func (s *sys) stepSub(i int) bfs.StepResult {
+	o := s.ops[i]
+	x := s.actors[o.actor]
+	r := s.actorByName(x.recv)
+	c := o.c
+	before := s.lastDump
+
+	var viols []bfs.Viol
+
+	viols, s.pending = s.pending, nil
+
+	if r == nil || !r.attached() || (r.isView() && !r.chdirDone && !isAbs(c.A)) {
+		return bfs.StepResult{Key: s.lastKey, Outcome: x.recv + "/Sub/not-judged", Viols: viols}
+	}
+
+	phase := "after-chdir"
+	if !r.chdirDone {
+		phase = "before-chdir"
+	}
+
+	userClass := "admin"
+	if r.user != "root" {
+		userClass = "non-admin"
+	}
+
+	pclass := pathClass(r, c.A)
+	tc := s.twinCall(r, c)
+	tdir := joinDir(r.base(), viewAbs(r.cwd, c.A)) // where the parent sees the new view's root
+
+	det := detail{
+		Variant: s.variant, Actor: r.name, Phase: phase, User: r.user, UMask: fmt.Sprintf("%03o", r.umask), Cwd: r.cwd,
+		Call: x.name + " = " + r.name + "." + c.String(), TwinCall: tc.String(),
+	}
+
+	if r.isView() {
+		det.Dir = r.dir
+	}
+
+	report := func(kind, want, got, note string, extra ...string) {
+		d := det
+		d.Note = note
+
+		sig := map[string]string{
+			"actor": r.kind, "call": c.Op, "path": pclass, "phase": phase, "kind": kind,
+			"want": clip(want), "got": clip(got), "user": userClass, "viewroot": s.viewrootClass(r, c, before),
+		}
+
+		for i := 0; i+1 < len(extra); i += 2 {
+			sig[extra[i]] = extra[i+1]
+		}
+
+		viols = append(viols, bfs.Viol{Sig: sig, Detail: d.String()})
+	}
+
+	rr, nv := execSub(r.fs, c.A)
+
+	s.mirror(r)
+
+	tr, _ := execSub(s.T, tc.A)
+
+	det.Real, det.Twin = rr.String(), tr.String()
+
+	if s.trace != nil {
+		s.trace(fmt.Sprintf("%-44s real=%s | twin %s = %s", s.OpString(i), rr, tc.String(), tr))
+	}
+
+	nr, nt := s.normReal(r, c, rr), s.normTwin(r, c, tr)
+	diverged := false
+
+	switch {
+	case nr.Kind != nt.Kind:
+		kind, want, got := "outcome", nt.Kind, nr.Kind
+
+		switch nr.Kind {
+		case "PANIC":
+			kind, want, got = "panic", "no-panic", panicClass(rr.Msg)
+		case "DEADLOCK":
+			kind, want = "deadlock", "no-deadlock"
+		}
+
+		report(kind, want, got, "Sub through the actor and Sub of the parent on the prefixed path end differently")
+
+		diverged = true
+	case strings.Join(nr.EPaths, ",") != strings.Join(nt.EPaths, ","):
+		report("value", "errpath="+strings.Join(nt.EPaths, ","), "errpath="+strings.Join(nr.EPaths, ","),
+			"path carried by the error differs after stripping dir")
+	}
+
+	var after, tafter []string
+
+	dk, dmsg := fsx.Guard(func() { after = s.P.VerifDump(); tafter = s.T.VerifDump() })
+	if dk != "" {
+		report("panic", "dump", "dump-"+dk, dmsg)
+
+		return bfs.StepResult{Changed: true, Key: "broken:" + s.OpString(i), Broken: true, Rebuild: true, Outcome: r.kind + "/Sub/dump-" + dk, Viols: viols}
+	}
+
+	if !equalLines(after, tafter) {
+		report("tree", "equal", treeClass(tafter, after), "Sub changed the tree of the parent, or of the twin")
+
+		diverged = true
+	}
+
+	s.lastDump = after
+
+	if nv != nil {
+		// the actor is the new view from now on
+		x.fs, x.dir = nv, tdir
+		x.user, x.umask, x.cwd, x.chdirDone = r.user, r.umask, r.cwd, false
+
+		s.locate(x)
+
+		if !x.attached() {
+			got := "a directory the parent cannot reach"
+			if x.located {
+				got = "rooted at " + x.loc
+			}
+
+			report("tree", "rooted at "+tdir, got, "the root node of the view returned by Sub is not the directory the parent calls dir (checked with the injected VerifRootIs hook)")
+
+			diverged = true
+		}
+
+		for _, m := range s.stateMismatches() {
+			if m.actor == x {
+				report("value", m.want, m.got, "a new view starts with the user, umask and working directory its receiver has when Sub is called")
+			} else {
+				report("setter-leak", m.want, m.got, "Sub changed the state of another actor", "victim", m.actor.kind)
+			}
+
+			m.actor.user, m.actor.umask, m.actor.cwd = actual(m.actor)
+			diverged = true
+		}
+
+		leak := func(setter string, m mismatch) {
+			report("setter-leak", m.want, m.got, "independence probe on the view just created: "+setter, "victim", m.actor.kind, "setter", setter)
+
+			diverged = true
+		}
+
+		s.probeIndependence(x, "new-view", leak)
+		s.probeIndependence(r, "receiver", leak)
+	}
+
+	key := s.key("")
+	if diverged {
+		key += "\n!diverged"
+	}
+
+	// the actor's file system object was replaced: the instance is always rebuilt
+	res := bfs.StepResult{
+		Changed: key != s.lastKey, Key: key, Broken: diverged, Rebuild: true,
+		Outcome: r.kind + "/Sub/" + tr.Kind, Viols: viols,
+	}
+
+	s.lastKey = key
+
+	return res
+}
+
+// probeIndependence is the independence clause of the property, checked by
+// doing it: each of the three per-view setters (SetUMask, SetUser, Chdir) is
+// applied to actor a with a value that differs from the current one, User /
+// UMask / Getwd of every OTHER actor are compared with the model, and a's
+// state is put back. leak is called for every other actor that moved.
+func (s *sys) probeIndependence(a *actor, role string, leak func(setter string, m mismatch)) {
+	check := func(setter string) {
+		for _, m := range s.stateMismatches() {
+			if m.actor != a {
+				leak(setter+"@"+role, m)
+			}
+		}
+	}
+
+	_, _ = fsx.Guard(func() {
+		// umask
+		old := a.umask
+		nm := uint32(0o055)
+
+		if old == nm {
+			nm = 0o033
+		}
+
+		if a.fs.SetUMask(fs.FileMode(nm)) == nil {
+			a.umask = nm
+			check("SetUMask")
+		}
+
+		_ = a.fs.SetUMask(fs.FileMode(old))
+		a.umask = old
+
+		// user
+		oldUser := a.user
+		nu := "u2"
+
+		if oldUser == nu {
+			nu = "u1"
+		}
+
+		if a.fs.SetUser(s.users[nu]) == nil {
+			a.user = nu
+			check("SetUser")
+		}
+
+		_ = a.fs.SetUser(s.users[oldUser])
+		a.user = oldUser
+
+		// working directory: "/" or, when that is the current one, the first
+		// directory listed in "/"
+		oldCwd := a.cwd
+		target := "/"
+
+		if oldCwd == "/" {
+			target = ""
+
+			es, _ := a.fs.ReadDir("/")
+			for _, e := range es {
+				if e.IsDir() {
+					target = "/" + e.Name()
+
+					break
+				}
+			}
+		}
+
+		if target != "" && a.fs.Chdir(target) == nil {
+			a.cwd = target
+			check("Chdir")
+		}
+
+		_ = a.fs.SetCurDir(oldCwd)
+		a.cwd = oldCwd
+	})
 }
